@@ -165,7 +165,7 @@ const IDS_ANN: [&str; 7] = ["w0", "w3", "sent1", "a1", "meta1", "nope", "my anno
 const IDS_RES: [&str; 3] = ["r1", "r2", "nope"];
 const IDS_SET: [&str; 3] = ["s", "s2", "nope"];
 const KEYS: [&str; 8] = ["type", "pos", "n", "flag", "when", "none", "author", "nokey"];
-const STRVALS: [&str; 9] = ["word", "noun", "sentence", "verb", "note", "x y", "é日", "semi;colon", "a]b"];
+const STRVALS: [&str; 23] = ["word", "noun", "sentence", "verb", "note", "x y", "é日", "semi;colon", "a]b", "True", "FALSE", "NULL", "Any", "1", "-2.5", "2024-01-02", "or", "OR", "a|b", "true", "null", "any", "2024-01-02T03:04:05+00:00"];
 const TEXTS: [&str; 6] = ["fly", "the", "Hello", "FLY", "日本", "not there"];
 const REGEXES: [&str; 4] = ["fl.", "[Tt]he", r"\w+ly", "b(e)e"];
 const RELOPS: [&str; 10] = ["EQUALS", "EMBEDS", "EMBEDDED", "OVERLAPS", "PRECEDES", "SUCCEEDS", "SAMEBEGIN", "SAMEEND", "BEFORE", "AFTER"];
@@ -484,9 +484,9 @@ pub fn gen_valid(rng: &mut Rng, plain: bool) -> String {
 // ---------------------------------------------------------------------------------------------
 // hostile strings
 
-const TOKENS: [&str; 60] = [
+const TOKENS: [&str; 66] = [
     "SELECT", "ADD", "DELETE", "OPTIONAL", "ANNOTATION", "DATA", "KEY", "TEXT", "RESOURCE", "DATASET", "WHERE", "WITH", "ID", "RELATION", "VALUE", "SUBSTORE", "LIMIT", "OFFSET", "AS", "METADATA", "TARGET",
-    "RECURSIVE", "NOCASE", "REGEX", "NONE", "WHOLE", "EMBEDS", "OR", "[", "]", "{", "}", "|", ";", "?", "?x", "@", "@a", "=", "!=", ">", ">=", "<", "<=", "\"", "\\", "\"a\"", "a", "null", "any", "true", "-", ".", "-.", "1", "-1", "1.5",
+    "RECURSIVE", "NOCASE", "REGEX", "NONE", "WHOLE", "EMBEDS", "OR", "[", "]", "{", "}", "|", ";", "?", "?x", "@", "@a", "=", "!=", ">", ">=", "<", "<=", "\"", "\\", "\"a\"", "a", "null", "any", "true", "-", ".", "-.", "1", "-1", "1.5", "True", "FALSE", "Null", "ANY", "\"true\"", "\"null\"",
     "99999999999999999999999999999999999999999", "COMPOSITE", "2024-01-02T03:04:05+00:00",
 ];
 const SEPS: [&str; 12] = [" ", " ", " ", " ", "", "\n", "\t", "\r", "\u{a0}", "\u{2003}", "\u{3000}", "  "];
@@ -499,7 +499,26 @@ const UNI: [&str; 10] = ["é", "日", "😀", "\u{a0}", "\u{2003}", "\u{301}", "
 fn mutate(rng: &mut Rng, base: &str) -> String {
     let chars: Vec<char> = base.chars().collect();
     let tokens: Vec<&str> = base.split(' ').collect();
-    match rng.below(12) {
+    match rng.below(13) {
+        12 => {
+            // change the case of one token
+            let i = rng.below(tokens.len().max(1));
+            let mut v: Vec<String> = tokens.iter().map(|t| t.to_string()).collect();
+            if i < v.len() {
+                v[i] = match rng.below(3) {
+                    0 => v[i].to_uppercase(),
+                    1 => v[i].to_lowercase(),
+                    _ => {
+                        let mut c = v[i].chars();
+                        match c.next() {
+                            Some(f) => f.to_uppercase().collect::<String>() + &c.as_str().to_lowercase(),
+                            None => String::new(),
+                        }
+                    }
+                };
+            }
+            v.join(" ")
+        }
         0 => chars[..rng.below(chars.len() + 1)].iter().collect(), // truncation at a character boundary
         1 => {
             // delete one token
@@ -702,12 +721,12 @@ fn totality(p: &Params, rep: &mut Report, total: u64) {
 // ---------------------------------------------------------------------------------------------
 // fixpoint
 
-/// does any argument contain a double quote or a backslash (Debug renders them escaped)
+/// does any argument contain a double quote, a backslash (Debug renders them escaped) or a list separator
 fn has_hostile_arg(s: &Value) -> bool {
     match s {
         Value::Object(m) => {
             if let (Some(Value::String(variant)), Some(Value::String(v))) = (m.get("variant"), m.get("v")) {
-                if variant != "Regex" && (v.contains("\\\"") || v.contains("\\\\")) {
+                if variant != "Regex" && (v.contains("\\\"") || v.contains("\\\\") || v.contains('|')) {
                     return true;
                 }
             }
@@ -931,7 +950,7 @@ fn fixpoint_case<'a>(rep: &mut Report, stores: &'a [&'a AnnotationStore], fx: Fi
     let handle_variant = ["Annotations", "Data", "Keys", "Resources", "TextSelections"].iter().find(|v| features.split(',').any(|f| f.split('+').next() == Some(**v)));
     let sig = if fx.origin == "built" && has_hostile_arg(&minimal) {
         // root cause: arguments are printed between double quotes without escaping, and the zero-copy parser cannot unescape
-        "C09/fixpoint/built/explained:argument-with-quote-or-backslash-is-printed-unescaped".to_string()
+        "C09/fixpoint/built/explained:argument-with-quote-backslash-or-bar-is-printed-unescaped".to_string()
     } else if kind_class(&kind) == "meaning-differs"
         && handle_variant.is_some()
         && minimal_detail["after"].as_str().map(|s| s.starts_with("Err(\"error-during-evaluation")).unwrap_or(false)
